@@ -59,7 +59,7 @@ impl<'transient, 'inner: 'transient, 'lifespan: 'inner> ChemicalComposition<'lif
     pub fn get_str(&self, sym: &str) -> i32 {
         match self {
             ChemicalComposition::Vec(v) => *v.index(sym),
-            ChemicalComposition::Map(m) => m.get_str(sym),
+            ChemicalComposition::Map(m) => *m.index(sym),
         }
     }
 
